@@ -15,6 +15,10 @@ CHECKS = {
    technique="TLA+ functional specification of the native column/block format used as the independent reference decoder: TLC decodes the bytes the real encoders produced and compares with the logical contents and with what the real decoders returned (trace validation); design lemma (decoder inverts an independently written encoder, prefix-freeness) model-checked on a type universe to depth 3",
    text="~170 (quick) / ~460 (thorough) column types - 29 base kinds under Array / Nullable / LowCardinality / Map / Tuple to depth 2 / 3 - with random and boundary values, 5-6 protocol revisions around the block-affecting features, default and purego builds, every encoding path (EncodeBlock into empty and pre-filled buffers, WriteBlock+Flush, encoding the same objects twice), typed decode into fresh and reused targets and inferred decode; boundary blocks (strings of 127..16385 bytes, dictionaries of 254..257 and 65534..65537 values). Every block is one trace line validated by TLC against Wire.tla.",
    note="Trusted: TLC; the harness' Go-value <-> raw-bytes conversion (encoding/binary); scalar values are opaque byte strings for the specification (their meaning is C20's subject); compositions the Go generics cannot express (Array(Tuple), LowCardinality(Nullable)) are not built."),
+ "C02": dict(engine="Messages", category="model_checking", design_ref="DESIGN.md §5 C02",
+   technique="the client's whole byte stream of a query parsed by TLC with the TLA+ field tables (Messages.tla: Query packet byte-exact) and the Wire.tla block decoder (Data packets, frames), recorded from real Dial+Do sessions (trace validation)",
+   text="500 (quick) / 6000 (thorough) sessions over every representative negotiated revision >= 54429 and all five compression settings with varied ids, bodies, connection- and query-level settings, parameters, secret, quota key, external data and 1-4 input rounds: TLC requires the bytes to be exactly one Query packet (= EncMsg of the caller's fields), the external block and a terminator, the input blocks in order and a terminator, each block one Data packet in one verified frame iff compression is on, and nothing else.",
+   note="Trusted: TLC; third-party CityHash/LZ4/ZSTD in the harness; library-chosen ClientInfo values (name, version, address, start time) are read back from the packet; revisions below 54429 are not exercised."),
  "C03": dict(engine="QueryLifecycle", category="model_checking", design_ref="DESIGN.md §5 C03",
    technique="TLA+ model of Do's receive loop (TLC exhaustive over bounded scripts) + scripted server streams replayed on the real client, callbacks and returned exception chain validated step by step by TLC (trace validation)",
    text="TLC checks Delivered (callback log = exactly the callbacks the consumed packets call for, in order), NilOnlyAfterEos and ExcReturned on the model; random well-formed scripts up to length 12 (quick) / 30 (thorough), every callback present or absent, a failing callback at every position, all compression modes and several revisions run on the real client; each receiver step's callbacks (with the script item whose rows the bound columns hold), the error class, the recovered exception chain and errors.Is for every code are validated against the specification.",
@@ -51,6 +55,10 @@ CHECKS = {
    technique="TLA+ field tables of every protocol message with an independent table of feature revisions (TLC: encoding changes only at thresholds, over every revision) + byte-exact comparison by TLC of what the library's EncodeAware produced with EncMsg of the specification, decode-back and prefix refusal (trace validation)",
    text="Nine message kinds with random field values at every representative revision (quick: each threshold, both neighbours, interval midpoints; thorough: literally every revision 50000..54500, default and purego builds): TLC requires bytes = EncMsg(kind, rev, fields), every present field returned by DecodeAware with nothing left over, every proper prefix refused.",
    note="Trusted: TLC; integers are handed to the specification in wire form produced with encoding/binary; the library's documented decode refusals are excluded from the decode half."),
+ "C13": dict(engine="Handshake", category="model_checking", design_ref="DESIGN.md §5 C13",
+   technique="TLA+ model of Dial/Connect/handshake (TLC over revision pairs x server behaviours, with pinned-code variants for non-vacuity) + real ch.Dial runs against scripted server behaviours with real (short) time-outs, validated by TLC with the Messages.tla tables (trace validation)",
+   text="Client x server revision pairs over the representatives of every feature interval (quick: diagonal band + sample, thorough: all pairs) x {hello, late hello, exception, other packet, garbage, cut, truncated hello, stall} x credential strings: the hello bytes, the addendum iff min(client, server) has it, the reported server identity, the error carrying the exception, no usable client and a closed dialed connection on failure; a late hello within the handshake time-out must be accepted. Successful handshakes are followed by a query parsed at the negotiated revision.",
+   note="Trusted: TLC; real timers with margins (read 40 ms, handshake 600 ms, late hello 110 ms); the harness Dialer makes Close of the dialed connection observable."),
  "C14": dict(engine="Writer", category="model_checking", design_ref="DESIGN.md §5 C14",
    technique="TLA+ model of the vectored writer with explicit backing arrays (TLC exhaustive) + every bounded operation sequence executed on the real proto.Writer and validated by TLC (trace validation)",
    text="Exhaustive at the stated sequence length over a 12-operation alphabet, plus random long sequences; each Flush's delivered bytes are compared by TLC with the specification's pending contents.",
@@ -96,6 +104,8 @@ def main():
              "kind_free_text": "TLA+ list-of-values model of column reuse; MC_ColumnHistory*.cfg, Trace_ColumnHistory (uses Wire.tla to decode encode outputs)"},
             {"name": "Messages", "path": "spec/Messages.tla", "serves_properties": ["C17", "C02", "C13"],
              "kind_free_text": "TLA+ field tables of the protocol messages over Features.tla (independent revision thresholds); MC_Messages, Trace_Messages"},
+            {"name": "Handshake", "path": "spec/Handshake.tla", "serves_properties": ["C13"],
+             "kind_free_text": "TLA+ model of Dial / handshake with abstract time; MC_Handshake_*.cfg; Trace_Session (shared with C02)"},
             {"name": "Frames", "path": "spec/Frames.tla", "serves_properties": ["C05"],
              "kind_free_text": "TLA+ model of compress.Reader over abstract frame streams with alteration classes; MC_Frames*.cfg, Trace_Frames"},
             {"name": "Pool", "path": "spec/Pool.tla", "serves_properties": ["C11", "C12"],
